@@ -2,7 +2,7 @@
    kind = property*100 + sub-model.  [run] = what the model says the implementation must
    output on this input; [mon] = the property's monitor applied to the implementation's own
    observed output. *)
-From RainV Require Import Lib Tier Geometry SectionIO Meta Paths Wire Stree AddrList Cache.
+From RainV Require Import Lib Tier Geometry SectionIO Meta Paths Wire Stree AddrList Cache Tracker.
 
 Definition run (kind : Z) (inp : list Z) : list Z :=
   match kind with
@@ -21,7 +21,11 @@ Definition run (kind : Z) (inp : list Z) : list Z :=
   | 1102 => run_reader inp
   | 1103 => run_reader inp
   | 1104 => run_roundtrip inp
+  | 1501 => run_udp_packet inp
+  | 1502 => run_http_query inp
   | 1601 => run_tier true inp
+  | 1602 => run_udp_parse inp
+  | 1603 => run_http_parse inp
   | 1801 => run_blocklist inp
   | 1802 => run_stree inp
   | 1803 => run_addrlist inp
@@ -45,7 +49,11 @@ Definition mon (kind : Z) (inp obs : list Z) : bool :=
   | 1102 => mon_reader inp obs
   | 1103 => list_eqb_Z (run_reader inp) obs
   | 1104 => mon_roundtrip inp obs
+  | 1501 => mon_udp_packet inp obs
+  | 1502 => list_eqb_Z (run_http_query inp) obs
   | 1601 => mon_tier inp obs
+  | 1602 => mon_udp_parse inp obs
+  | 1603 => mon_http_parse inp obs
   | 1801 => mon_blocklist inp obs
   | 1802 => mon_stree inp obs
   | 1803 => mon_addrlist inp obs
